@@ -287,6 +287,11 @@ type repoManager struct {
 	branchToUUID map[string]dvid.UUID
 	branchMutex  sync.RWMutex
 
+	// Serializes the check-then-insert sequences that add a version node (newVersion) or a data instance (newData)
+	// to a repo: the uniqueness checks (one child per branch, unique branch name, unique instance name) and the
+	// insertion must not interleave with another creation.
+	createMutex sync.Mutex
+
 	// Counters that provide the local IDs of the next new repo, version, or data instance.
 	// Valid counters should be >= 1, so we can distinguish between valid ids and the
 	// default zero value.
@@ -1818,6 +1823,9 @@ func (m *repoManager) newVersion(parent dvid.UUID, note string, branchname strin
 		return dvid.NilUUID, ErrInvalidVersion
 	}
 
+	m.createMutex.Lock()
+	defer m.createMutex.Unlock()
+
 	node.RLock()
 	defer node.RUnlock()
 	if !node.locked {
@@ -2180,6 +2188,9 @@ func (m *repoManager) newData(uuid dvid.UUID, t TypeService, name dvid.InstanceN
 	if err != nil {
 		return nil, err
 	}
+
+	m.createMutex.Lock()
+	defer m.createMutex.Unlock()
 
 	// Only allow unique data name per repo
 	r.RLock()
